@@ -76,20 +76,38 @@ func zones() []*zoneInfo {
 			}
 			zi := &zoneInfo{name: name, loc: loc}
 			ok := true
-			t := time.Unix(minUnix-2*366*86400, 0).In(loc)
+			// Transitions are found by probing the offset/abbreviation every
+			// 6 hours and bisecting where it changes (Time.ZoneBounds is not
+			// usable past the last explicit transition of the tz file).
+			const step = 6 * 3600
+			lo := minUnix - 2*366*86400
 			end := maxUnix + 2*366*86400
-			for n := 0; n < 2000; n++ {
-				_, off := t.Zone()
-				if off%60 != 0 {
+			pn, po := offsetAt(loc, lo)
+			if po%60 != 0 {
+				ok = false
+			}
+			for u := lo + step; u <= end && ok; u += step {
+				n, o := offsetAt(loc, u)
+				if n == pn && o == po {
+					continue
+				}
+				a, b := u-step, u // zone(a) = previous, zone(b) = new
+				for b-a > 1 {
+					mid := a + (b-a)/2
+					if mn, mo := offsetAt(loc, mid); mn == pn && mo == po {
+						a = mid
+					} else {
+						b = mid
+					}
+				}
+				zi.trans = append(zi.trans, b)
+				pn, po = offsetAt(loc, b)
+				if po%60 != 0 {
 					ok = false
-					break
 				}
-				_, e := t.ZoneBounds()
-				if e.IsZero() || e.Unix() > end {
-					break
+				if pn != n || po != o { // two changes within one step: rescan from b
+					u = b - b%step
 				}
-				zi.trans = append(zi.trans, e.Unix())
-				t = e.In(loc)
 			}
 			if !ok {
 				pbt.Exclude("zone-with-sub-minute-offset:" + name)
@@ -133,6 +151,7 @@ func nearTransition(trans []int64, unix, d int64) bool {
 var (
 	kbMu    sync.Mutex
 	kbCache = map[string]*expressions.CompiledKeyBuilder{}
+	stdKB   = stdlib.NewStdKeyBuilder()
 )
 
 func compile(expr string, cache bool) (*expressions.CompiledKeyBuilder, error) {
@@ -144,7 +163,7 @@ func compile(expr string, cache bool) (*expressions.CompiledKeyBuilder, error) {
 			return kb, nil
 		}
 	}
-	kb, errs := stdlib.NewStdKeyBuilder().Compile(expr)
+	kb, errs := stdKB.Compile(expr)
 	if errs != nil {
 		return nil, fmt.Errorf("expression %s does not compile: %v", expr, errs)
 	}
@@ -201,10 +220,10 @@ func resetGlobals() {
 
 type Case struct {
 	Unix   int64
-	Zone   string // "" = tz argument omitted (documented default utc), "utc", or an IANA name
-	Spell  uint32 // picks the spelling of each bucket name and the tz handed to {time}
-	Inline bool   // the unix second is written into the template (constant expression) instead of {0}
-	Frac   int    // nanoseconds appended to the text given to {buckettime … nano}
+	Zone   string   // "" = tz argument omitted (documented default utc), "utc", or an IANA name
+	Spell  uint32   // picks the spelling of each bucket name and the tz handed to {time}
+	Inline bool     // the unix second is written into the template (constant expression) instead of {0}
+	Frac   int      // nanoseconds appended to the text given to {buckettime … nano}
 	Obs    *pbt.Obs `json:"-"`
 }
 
@@ -262,6 +281,9 @@ func checkCalendar(c Case) error {
 		want int
 	}{{"YEAR", cv.Year}, {"MONTH", cv.Month}, {"DAY", cv.Day}, {"HOUR", cv.Hour}, {"MINUTE", cv.Minute}, {"SECOND", cv.Second}}
 	for _, p := range numParts {
+		if c.Inline {
+			break // constant expressions are compiled per case: a reduced set keeps them affordable
+		}
 		expr := call("timeformat", uArg, p.name, c.Zone)
 		got, err := run(expr)
 		if err != nil {
@@ -277,6 +299,9 @@ func checkCalendar(c Case) error {
 		{"NTIMEZONE", numOffset(off, false)}, {"TIMEZONE", abbr},
 	}
 	for _, p := range textParts {
+		if c.Inline {
+			break
+		}
 		expr := call("timeformat", uArg, p.name, c.Zone)
 		got, err := run(expr)
 		if err != nil {
@@ -288,7 +313,10 @@ func checkCalendar(c Case) error {
 	}
 
 	// ---- timeformat: named formats ------------------------------------
-	for _, f := range allNamedFormats {
+	for i, f := range allNamedFormats {
+		if c.Inline && i != int(c.Spell>>4)%len(allNamedFormats) {
+			continue
+		}
 		expr := call("timeformat", uArg, f, c.Zone)
 		got, err := run(expr)
 		if err != nil {
@@ -361,6 +389,9 @@ func checkCalendar(c Case) error {
 	for i, b := range buckets {
 		n := b.min + int((c.Spell>>(3*uint(i)))&7)%(len(b.word)-b.min+1)
 		name := b.word[:n]
+		if c.Inline && i != int(c.Spell>>12)%len(buckets) {
+			continue
+		}
 		keep := b.keep
 		if keep > 6 {
 			keep = 6
@@ -421,6 +452,9 @@ func checkCalendar(c Case) error {
 	// ---- time(timeformat(t)) round trips --------------------------------
 	zl := zones()
 	for i, f := range roundTripFormats {
+		if c.Inline && i != int(c.Spell>>16)%len(roundTripFormats) {
+			continue
+		}
 		if f == "RFC822Z" && (cv.Year < 1969 || cv.Year > 2068) {
 			// a two-digit year cannot say which century; the reading of
 			// 69..99 / 00..68 is Go's convention, not documented by rare
@@ -459,7 +493,7 @@ func checkCalendar(c Case) error {
 	// beyond doubt: no zone transition within 36 hours.
 	if nearTransition(trans, c.Unix, 36*3600) {
 		pbt.Exclude("ansic-roundtrip-near-zone-transition")
-	} else {
+	} else if !c.Inline || c.Spell&(1<<29) != 0 {
 		inner := call("timeformat", uArg, "ANSIC", c.Zone)
 		expr := call("time", inner, "ANSIC", c.Zone)
 		got, err := run(expr)
@@ -599,7 +633,7 @@ const calendarRule = "unix second in [1970-01-01, 2100-12-31] x zone in {omitted
 
 var calendarSpec = pbt.Spec[Case]{
 	Property: "C18", Name: "calendar", Rule: calendarRule,
-	Budget: pbt.Budget{Quick: 400000, Thorough: 8000000},
+	Budget: pbt.Budget{Quick: 120000, Thorough: 1200000},
 	Gen:    genCalendar, Check: checkCalendar, Classify: classifyCalendar,
 }
 
@@ -673,9 +707,9 @@ func TestSweep(t *testing.T) {
 // duration / durationformat
 
 type DurCase struct {
-	Kind string // "format" (seconds -> text -> seconds) | "parse" (text -> seconds -> text)
-	N    int64  // seconds (Kind format) / expected seconds (Kind parse)
-	Text string // duration text (Kind parse)
+	Kind string   // "format" (seconds -> text -> seconds) | "parse" (text -> seconds -> text)
+	N    int64    // seconds (Kind format) / expected seconds (Kind parse)
+	Text string   // duration text (Kind parse)
 	Obs  *pbt.Obs `json:"-"`
 }
 
@@ -863,7 +897,7 @@ var durationSpec = pbt.Spec[DurCase]{
 	Rule: "format: whole seconds n in ±9e9 (small, around multiples of 60/3600/86400, wide, boundary pool): durationformat(n) read by an own h/m/s reader = n and duration(durationformat(n)) = n. " +
 		"parse: text [-]<H[.f]>h<M[.f]>m<S>s (any non-empty subset of units, in that order; decimal fractions only where they are a whole number of seconds) with |total| <= 8.8e9: duration(text) = total, durationformat(duration(text)) reads as total, and back again. " +
 		"Non-trivial: |seconds| >= 60 (more than one unit involved); distinct by case JSON",
-	Budget: pbt.Budget{Quick: 160000, Thorough: 3000000},
+	Budget: pbt.Budget{Quick: 48000, Thorough: 400000},
 	Gen:    genDuration, Check: checkDuration, Classify: classifyDuration,
 }
 
@@ -978,7 +1012,7 @@ var errSpec = pbt.Spec[ErrCase]{
 	Property: "C18", Name: "errors",
 	Rule: "input that cannot be what the function reads: text without any digit (letters, blanks, punctuation, non-ASCII; or empty) given to time/buckettime with every named format, to timeformat/timeattr/durationformat (which read an integer) and to duration; " +
 		"or a well-formed time in one of RFC3339/NGINX/RFC1123Z/RUBY given to time/buckettime with another of them. Oracle: result is the documented marker <PARSE-ERROR> or <BAD-TYPE> (the docs do not separate the two sharply; either accepted). Non-trivial: non-empty input",
-	Budget: pbt.Budget{Quick: 80000, Thorough: 1500000},
+	Budget: pbt.Budget{Quick: 24000, Thorough: 200000},
 	Gen:    genErr, Check: checkErr, Classify: classifyErr,
 }
 
